@@ -16,7 +16,13 @@ from lib import vf, toks, suite
 from gen import corpus
 from checks import c08, c16
 
-ENVS = [{"LANG": "C", "LC_ALL": "C"}, {"LANG": "tr_TR.UTF-8", "LC_ALL": "tr_TR.UTF-8", "TZ": "Pacific/Kiritimati"},
+# variables that build tools, CI services and documentation builders are known to set (a macro that consults any of them is not a
+# function of (attribute, item))
+WELL_KNOWN = {"DOCS_RS": "1", "CI": "true", "GITHUB_ACTIONS": "true", "SOURCE_DATE_EPOCH": "0", "NO_COLOR": "1", "CLICOLOR_FORCE": "1", "TERM": "dumb",
+              "PROFILE": "release", "DEBUG": "false", "OPT_LEVEL": "3", "TARGET": "x86_64-unknown-linux-gnu", "HOST": "x86_64-unknown-linux-gnu",
+              "RUST_LOG": "trace", "RUSTDOC": "rustdoc", "CARGO_PRIMARY_PACKAGE": "1", "CARGO_CFG_TEST": "1", "RUSTC_BOOTSTRAP": "0",
+              "ENTRAIT_DEBUG": "1", "ENTRAIT_EXPORT": "1", "UNIMOCK": "1", "MOCKALL": "1", "USER": "nobody", "TMPDIR": "/var/tmp"}
+ENVS = [{"LANG": "C", "LC_ALL": "C"}, WELL_KNOWN, {"LANG": "tr_TR.UTF-8", "LC_ALL": "tr_TR.UTF-8", "TZ": "Pacific/Kiritimati"},
         {"LANG": "en_US.UTF-8", "RUST_BACKTRACE": "1", "TMPDIR": "/tmp", "COLUMNS": "40"}, {"CARGO_BUILD_JOBS": "1", "RAYON_NUM_THREADS": "1"}]
 
 
@@ -71,6 +77,7 @@ def main():
             os.remove(f)
         env = vf.cargo_env(dump)
         env.update(ENVS[p % len(ENVS)])
+        chk.cov.setdefault("environments", []).append(sorted(ENVS[p % len(ENVS)]))
         jobs = ["-j1"] if p % 2 else []
         subprocess.run(["cargo", "check", "--offline", *jobs], cwd=crate.root, env=env, capture_output=True, text=True, timeout=1800)
         files = sorted(glob.glob(dump + ".*"))
